@@ -79,6 +79,31 @@ Definition rspec_read (s : rspec) (r : reg) : N :=
   if power s then N.lor (last s r) (reg_mask r) else reg_mask r.
 
 (* ================================================================================================= *)
+(* Part 2 — C19: frame sequencer and length counters as functions of elapsed clock cycles.
+   A state of the sample clock is (k, q): k = clock cycles already consumed in the current emulated second
+   (0 <= k < 4194304), q = index of the next frame-sequencer step (0 <= q < 512; even steps clock the length
+   counters).  The sequencer steps every 8192 clocks: the m-th clock from now (m >= 1) is a step iff
+   (k + m) mod 8192 = 0. *)
+
+(* sequencer steps among the next n clocks *)
+Definition seq_hits (k n : N) : N := (k mod 8192 + n) / 8192.
+
+(* length clocks among the next n clocks: the steps with an even index *)
+Definition lc_count (k q n : N) : N := (seq_hits k n + (1 - q mod 2)) / 2.
+
+(* is the m-th clock from now a length clock? *)
+Definition length_clock_at (k q m : N) : bool :=
+  (0 <? m) && ((k + m) mod 8192 =? 0) && (((q + seq_hits k (m - 1)) mod 512) mod 2 =? 0).
+
+(* The documented DMG algorithm for the length counter when NRx4 is written with trigger and length enable
+   (full = 64, or 256 for channel 3; L0 = counter before the write; oldEn = length was already enabled;
+   first_half = the next sequencer step does not clock length): *)
+Definition trigger_length (full L0 : N) (oldEn first_half : bool) : N :=
+  let L1 := if negb oldEn && (0 <? L0) && first_half then L0 - 1 else L0 in   (* extra clock when length gets enabled *)
+  let L2 := if L1 =? 0 then full else L1 in                                   (* a trigger reloads an empty counter *)
+  if first_half && (L2 =? full) then full - 1 else L2.                        (* full counter in the first half: one less *)
+
+(* ================================================================================================= *)
 (* Part 4 — C21: waveform generators as functions of the number of elapsed clock cycles.
    n counts the clock cycles after the machine cycle in which the trigger was written (n = 1 is the first). *)
 
